@@ -165,6 +165,27 @@ def _neg(c, boolctx):
     return ast.UnaryOp(op=ast.Not(), operand=c)
 
 
+def _push_not(c):
+    """`not c` with the negation pushed one level in, keeping the operand
+    spelling (no reorientation); None when c is not a comparison / and / or"""
+    if isinstance(c, ast.Compare) and len(c.ops) == 1:
+        return ast.Compare(left=c.left, ops=[_FLIP[type(c.ops[0])]()],
+                           comparators=c.comparators)
+    if isinstance(c, ast.BoolOp):
+        op = ast.Or() if isinstance(c.op, ast.And) else ast.And()
+        vals = []
+        for v in c.values:
+            p = _push_not(v)
+            if p is None:
+                if isinstance(v, ast.UnaryOp) and isinstance(v.op, ast.Not):
+                    p = v.operand
+                else:
+                    p = ast.UnaryOp(op=ast.Not(), operand=v)
+            vals.append(p)
+        return ast.BoolOp(op=op, values=vals)
+    return None
+
+
 def key(e, boolctx):
     return hashlib.sha1(_d(canon(e, boolctx)).encode(
         'utf-8', 'replace')).hexdigest()[:14]
@@ -268,10 +289,62 @@ def _set(owner, fld, idx, new):
         getattr(owner, fld)[idx] = new
 
 
+def _orientation(tab):
+    """which side of a comparison each operand text takes in the pinned
+    function: {dump(operand): {'L', 'R'}}, and whether a literal ever stands
+    on the left"""
+    sides = {}
+    const_left = False
+    for src in tab.values():
+        try:
+            e = ast.parse(src, mode='eval').body
+        except SyntaxError:
+            continue
+        for x in ast.walk(e):
+            if isinstance(x, ast.Compare) and len(x.ops) == 1 and \
+                    type(x.ops[0]) not in (ast.In, ast.NotIn):
+                sides.setdefault(_d(x.left), set()).add('L')
+                sides.setdefault(_d(x.comparators[0]), set()).add('R')
+                if isinstance(x.left, ast.Constant) and not isinstance(
+                        x.comparators[0], ast.Constant):
+                    const_left = True
+    return sides, const_left
+
+
+_SWAP = {ast.Lt: ast.Gt, ast.Gt: ast.Lt, ast.LtE: ast.GtE, ast.GtE: ast.LtE,
+         ast.Eq: ast.Eq, ast.NotEq: ast.NotEq, ast.Is: ast.Is,
+         ast.IsNot: ast.IsNot}
+
+
+def _orient(e, sides, const_left):
+    """an unmatched comparison: put its operands on the sides the pinned
+    function uses for them (so that a changed bound or operator is read by
+    the rules in the spelling they know); -> True when swapped"""
+    if not (isinstance(e, ast.Compare) and len(e.ops) == 1 and
+            type(e.ops[0]) in _SWAP):
+        return False
+    left, right = e.left, e.comparators[0]
+    if _has_call(left) and _has_call(right):
+        return False
+    sl, sr = sides.get(_d(left), set()), sides.get(_d(right), set())
+    want = False
+    if (sl == {'R'} and 'R' not in sr) or (sr == {'L'} and 'L' not in sl):
+        want = True
+    if isinstance(left, ast.Constant) and not isinstance(
+            right, ast.Constant) and not const_left and 'L' not in sl:
+        want = True
+    if not want:
+        return False
+    e.left, e.comparators = right, [left]
+    e.ops = [_SWAP[type(e.ops[0])]()]
+    return True
+
+
 def n7_restore(fnode, tab):
     """rewrite the conditions of fnode to the pinned spelling where the normal
     forms agree; -> number of rewrites"""
     n = [0]
+    sides, const_left = _orientation(tab)
 
     def parse(src, like):
         e = ast.parse(src, mode='eval').body
@@ -296,6 +369,22 @@ def n7_restore(fnode, tab):
                 owner.body, owner.orelse = owner.orelse, owner.body
                 n[0] += 1
                 return
+        # no pinned condition means the same: normalise the spelling only
+        if isinstance(e, ast.UnaryOp) and isinstance(e.op, ast.Not) and \
+                isinstance(e.operand, (ast.BoolOp, ast.Compare)) and (
+                    bctx or isinstance(e.operand, ast.Compare)) and not (
+                    isinstance(e.operand, ast.Compare) and
+                    len(e.operand.ops) != 1):
+            pushed = _push_not(e.operand)
+            if pushed is not None:
+                for x in ast.walk(pushed):
+                    ast.copy_location(x, e)
+                _set(owner, fld, idx, pushed)
+                n[0] += 1
+                visit(pushed, bctx, owner, fld, idx)
+                return
+        if _orient(e, sides, const_left):
+            n[0] += 1
         for (s, o, f2, i2) in _parts(e):
             if _is_cond(s):
                 visit(s, bctx if isinstance(e, ast.BoolOp) else
